@@ -52,6 +52,9 @@ _BAD_PREFIXES = ("open", "os.", "socket.", "subprocess.", "import", "exec", "com
                  "glob.", "pathlib.", "http.", "ftplib.", "smtplib.", "webbrowser.", "winreg.", "mmap.", "fcntl.", "pty.", "signal.")
 
 
+_TRANSPARENT = ('realizer', 'with_realized_args', 'call_with_realized_args')
+
+
 def _hook(event, args):
     if _AUDIT["on"] and event.startswith(_BAD_PREFIXES):
         # attribute the event: walking outwards from where it was raised, a smartquery frame must come before any frame
@@ -60,6 +63,9 @@ def _hook(event, args):
         mine = False
         while f is not None:
             fn = f.f_code.co_filename
+            if '/crosshair/' in fn and (f.f_code.co_name in _TRANSPARENT or fn.endswith('/libimpl/codecslib.py')):
+                f = f.f_back          # a pass-through wrapper around the real C function: the caller decides
+                continue
             if '/crosshair/' in fn or '/z3/' in fn or fn.endswith('/sqv/hlib.py'):
                 break
             if '/smartquery/' in fn:
